@@ -5,7 +5,8 @@ trap 'git -C /repo checkout -- . 2>/dev/null' EXIT INT TERM
 cd /repo && git apply "$patch" || exit 2
 cd /verif
 for p in "$@"; do
-  out=$(VERIF_CACHE=/tmp/bva-verif-cache timeout 1500 bin/check $p 2>/dev/null); rc=$?
+  # evidence of a run against a seeded change goes to a scratch directory: the committed evidence describes the unchanged tree
+  out=$(VERIF_EVIDENCE_DIR=/tmp/bva-seed-evidence VERIF_CACHE=/tmp/bva-verif-cache timeout 1500 bin/check $p 2>/dev/null); rc=$?
   echo "[$p] rc=$rc $(echo "$out" | grep -c '^VIOLATION') violation line(s), $(echo "$out" | grep -c '^UNDECIDED') undecided"
   echo "$out" | grep "^VIOLATION" | head -3
 done
